@@ -420,6 +420,7 @@ def flow_rules(c, res, an):
     if n_rm < 2:
         raise CheckError('floor: channel removal sites %d < 2' % n_rm)
     # ---- CONST-TABLE rules behind the named invariants of the classification table
+    draw_covers_plan(c, res)
     if an is None:
         return {}
     from .. import tables
@@ -500,6 +501,72 @@ def flow_rules(c, res, an):
                     fn, 'LOOP-INVENTORY', instance='%s: %d non-iterator loop(s): %s' % (short(fn), n, row[1] if row else ''))
     res.coverage['non_iterator_loops'] = found
     return found
+
+
+def draw_covers_plan(c, res):
+    """termination of the dynamic-plan channel selection (listed loop "retry until an enabled channel is drawn") needs
+    every defined channel to be drawable: get_random_in_range returns rng & m with m = 2^k - 1 chosen from the index L of
+    the last defined channel; on every path the conditions under which m was chosen must imply L <= m"""
+    from ..rules import defs_with_conditions, cond_true, cond_false, linear
+    fn = D + 'region::dynamic_channel_plans::DynamicChannelPlan::get_random_in_range'
+    bf = c.bf(fn)
+    body = bf.body
+    rets = [s for b in body.blocks if not b.cleanup and b.idx in bf.cfg.reach for s in b.stmts if s.k == 'assign' and s.lhs.is_local() and s.lhs.local == 0]
+    ok = len(rets) == 1 and rets[0].rv.k == 'bin' and rets[0].rv.d['op'] == 'BitAnd'
+    why = 'the draw is not rng & mask'
+    worst = None
+    if ok:
+        ops = rets[0].rv.ops
+        ts = [term_of_operand(bf, o) for o in ops]
+        rng_i = [i for i, t in enumerate(ts) if term_contains(t, lambda y: isinstance(y, tuple) and y[:1] == ('call',) and y[1].endswith('RngCore::next_u32'))]
+        ok = len(rng_i) == 1
+    if ok:
+        mop = ops[1 - rng_i[0]]
+        mt = ts[1 - rng_i[0]]
+        last = rules.find_in_term(('x',) + tuple(t for d in ([mt],) for t in d) + tuple(x[0] for b in body.blocks if b.idx in bf.cfg.reach for x in path_conditions(bf, b.idx)),
+                                  lambda y: isinstance(y, tuple) and y[:1] == ('call',) and y[1].endswith('Option::unwrap') and term_contains(y, lambda z: isinstance(z, tuple) and z[:1] == ('call',) and z[1].endswith('Iterator::rposition')))
+        ok = last is not None
+        why = 'the index of the last defined channel (rposition(..).unwrap()) is not what selects the mask'
+    if ok:
+        # number of slots of the plan: the type of self.channels
+        import re as _re
+        n_slots = None
+        for v in c.prog.adts[D + 'region::dynamic_channel_plans::DynamicChannelPlan']['variants'][0]['fields']:
+            if v['name'] == 'channels':
+                m_ = _re.search(r';\s*([A-Za-z_0-9:]+)\s*\]', v['ty'])
+                if m_:
+                    n_slots = int(m_.group(1)) if m_.group(1).isdigit() else tables_const(c, m_.group(1))
+        if n_slots is None:
+            raise CheckError('anchor: size of DynamicChannelPlan.channels')
+        defs = defs_with_conditions(bf, mt[1]) if mt[0] == 'phi' else [(mt, path_conditions(bf, 0), 0)]
+        for v, conds, bb in defs:
+            if v[0] != 'const':
+                ok, why = False, 'mask %s is not a constant' % term_str(v)
+                break
+            ub = n_slots - 1
+            for x in conds:
+                t = x[0]
+                if not (isinstance(t, tuple) and t[0] in ('Gt', 'Ge', 'Lt', 'Le') and t[2][0] == 'const'):
+                    continue
+                lin, k0 = linear(t[1])
+                if lin != {last: 1}:
+                    continue
+                k = t[2][1] - k0
+                if (t[0] == 'Gt' and cond_false(x)) or (t[0] == 'Le' and cond_true(x)):
+                    ub = min(ub, k)
+                elif (t[0] == 'Ge' and cond_false(x)) or (t[0] == 'Lt' and cond_true(x)):
+                    ub = min(ub, k - 1)
+            if ub > v[1] or (v[1] & (v[1] + 1)) != 0:
+                ok = False
+                why = 'with mask %d the last defined channel index can be as high as %d: that channel is never drawn' % (v[1], ub)
+                break
+            worst = (v[1], ub) if worst is None or ub > worst[1] else worst
+    res.require(ok, 'C04:dyn::get_random_in_range:draw-covers-plan', 'the random channel draw does not cover every defined channel (selection can spin forever when only an uncovered channel is enabled): ' + why,
+                fn, 'COVER(draw range >= last defined channel)', instance='get_random_in_range: mask 2^k - 1 >= index of the last defined channel on every path')
+
+
+def tables_const(c, name):
+    return None
 
 
 def run(tier):
